@@ -422,6 +422,29 @@ def mw_history(cap, hist):
                 if not ok:
                     v.append(("moving_window_at_timestamp_returns_stored_value_or_nan_or_raises", {"slot": k, "got": got, "expected": exp}))
                     break
+            # keys off the slot grid: the value of one of the two neighbouring slots (NaN if that slot holds no valid
+            # value) or IndexError outside the covered range - never the content of an evicted or unwritten slot
+            for k in range(ov - 1, nw + 1):
+                for frac in (0.4, 0.6):
+                    x = k + frac
+                    acceptable = []
+                    for j in (k, k + 1):
+                        if ov <= j <= nw:
+                            acceptable.append(content[j])
+                    if x < ov or x > nw or not acceptable:
+                        acceptable.append("IndexError")
+                    try:
+                        got = float(mw.at(E + timedelta(seconds=x)))
+                    except IndexError:
+                        got = "IndexError"
+                    ok = any((e == "IndexError" and got == "IndexError") or (e is None and got != "IndexError" and math.isnan(got))
+                             or (e not in (None, "IndexError") and got == e) for e in acceptable) or (x > max(valid) and got == "IndexError")
+                    if not ok:
+                        v.append(("moving_window_at_unaligned_timestamp_returns_neighbouring_slot_value_or_nan_or_raises",
+                                  {"key_s": x, "got": got, "acceptable": acceptable, "content": {str(a): b for a, b in content.items()}}))
+                        break
+                if v:
+                    break
             full = [float(x) for x in mw[:]]
             expf = [x if x is not None else math.nan for x in L]
             expf_alt = [x if x is not None else math.nan for x in L_alt]
